@@ -282,3 +282,5 @@ def run(chk):
     _reserve_rule(chk, prog)
     _alias_rule(chk, prog)
     _range_rule(chk, prog)
+    from rules import c17_copylen
+    c17_copylen.run(chk, prog)
